@@ -30,6 +30,27 @@ namespace sdk
 namespace metrics
 {
 
+namespace
+{
+// Merge `aggregation` into the entry of `merged` for `attributes`. Once `merged` has reached its
+// cardinality limit, GetOrSetDefault() hands out the overflow entry for attributes it does not
+// hold yet; the result must then be merged into that entry, not replace what it already holds.
+void MergeInto(AttributesHashMap &merged,
+               const MetricAttributes &attributes,
+               const Aggregation &aggregation,
+               AggregationType aggregation_type,
+               const InstrumentDescriptor &instrument_descriptor,
+               const AggregationConfig *aggregation_config)
+{
+  Aggregation *current = merged.GetOrSetDefault(attributes, [&]() {
+    return DefaultAggregation::CreateAggregation(aggregation_type, instrument_descriptor,
+                                                 aggregation_config);
+  });
+  merged.Set(merged.Has(attributes) ? attributes : kOverflowAttributes,
+             current->Merge(aggregation));
+}
+}  // namespace
+
 TemporalMetricStorage::TemporalMetricStorage(InstrumentDescriptor instrument_descriptor,
                                              AggregationType aggregation_type,
                                              const AggregationConfig *aggregation_config)
@@ -103,18 +124,8 @@ bool TemporalMetricStorage::buildMetrics(CollectorHandle *collector,
   {
     agg_hashmap->GetAllEnteries(
         [&merged_metrics, this](const MetricAttributes &attributes, Aggregation &aggregation) {
-          auto agg = merged_metrics->Get(attributes);
-          if (agg)
-          {
-            merged_metrics->Set(attributes, agg->Merge(aggregation));
-          }
-          else
-          {
-            merged_metrics->Set(attributes,
-                                DefaultAggregation::CreateAggregation(
-                                    aggregation_type_, instrument_descriptor_, aggregation_config_)
-                                    ->Merge(aggregation));
-          }
+          MergeInto(*merged_metrics, attributes, aggregation, aggregation_type_,
+                    instrument_descriptor_, aggregation_config_);
           return true;
         });
   }
@@ -136,17 +147,8 @@ bool TemporalMetricStorage::buildMetrics(CollectorHandle *collector,
       // merge current delta to previous cumulative
       last_aggr_hashmap->GetAllEnteries(
           [&merged_metrics, this](const MetricAttributes &attributes, Aggregation &aggregation) {
-            auto agg = merged_metrics->Get(attributes);
-            if (agg)
-            {
-              merged_metrics->Set(attributes, agg->Merge(aggregation));
-            }
-            else
-            {
-              auto def_agg = DefaultAggregation::CreateAggregation(
-                  aggregation_type_, instrument_descriptor_, aggregation_config_);
-              merged_metrics->Set(attributes, def_agg->Merge(aggregation));
-            }
+            MergeInto(*merged_metrics, attributes, aggregation, aggregation_type_,
+                      instrument_descriptor_, aggregation_config_);
             return true;
           });
     }
